@@ -82,7 +82,7 @@ def lean_const(v):
     raise Unsupported("constant %r" % (v,))
 
 
-EXC_MAP = {"ValueError": "valueError", "TypeError": "typeError", "KeyError": "keyError", "IndexError": "indexError", "AdbTimeoutError": "adbTimeout"}
+EXC_MAP = {"ValueError": "valueError", "TypeError": "typeError", "KeyError": "keyError", "IndexError": "indexError", "AdbTimeoutError": "adbTimeout", "InvalidCommandError": "invalidCommand", "InvalidChecksumError": "invalidChecksum"}
 CMP = {ast.Eq: "Py.eqV", ast.NotEq: "Py.neV", ast.Is: "Py.isV", ast.IsNot: "Py.isNotV", ast.In: "Py.inV", ast.NotIn: "Py.notInV",
        ast.Lt: "Py.ltV", ast.LtE: "Py.leV", ast.Gt: "Py.gtV", ast.GtE: "Py.geV"}
 BIN = {ast.Add: "Py.add", ast.Sub: "Py.sub", ast.Mult: "Py.mul", ast.FloorDiv: "Py.floordiv", ast.Mod: "Py.mod", ast.BitAnd: "Py.bitand",
@@ -478,6 +478,9 @@ class FnTr(object):
                 d = self.expr(e.args[1])
                 o = self.gen_first(e.args[0].elt, e.args[0].generators)
                 return self.bind("Py.optD %s %s" % (o, d), pure=True)
+            if name in getattr(self.u, "external", {}) and name not in self.u.classes.get("", {}):
+                args = [self.expr(a) for a in e.args]
+                return self.bind("%s %s" % (self.u.external[name], " ".join(args)))
             callee = self.u.classes.get("", {}).get(name)
             if callee in self.u.bad:
                 raise Unsupported("calls %s, which is untranslatable" % callee)
@@ -513,6 +516,12 @@ class FnTr(object):
                     raise Unsupported("impure method self.%s used inside an expression" % f.attr)
                 args = self.call_args(cf, e.args)
                 return self.bind("%s v_self %s" % (callee, " ".join(args)))
+            if f.attr == "get" and len(e.args) == 1:
+                return self.bind("Py.dictGet %s %s" % (self.expr(f.value), self.expr(e.args[0])))
+            if f.attr == "pack" and not e.args and isinstance(f.value, ast.Name) and f.value.id == "msg":
+                if "AdbMessage_pack" not in getattr(self.u, "external_pure", ()):
+                    raise Unsupported("msg.pack() is not available as a pure translated function")
+                return self.bind("AdbMessage_pack %s" % self.expr(f.value))
             if f.attr == "empty" and not e.args:
                 return self.bind("Py.queueEmpty %s" % self.expr(f.value))
             raise Unsupported("method call .%s" % f.attr)
@@ -770,6 +779,8 @@ class FnTr(object):
                 if tgt is not None:
                     self.store(tgt, "%s.1" % g)
             return True
+        if f.attr == "get" and isinstance(f.value, ast.Attribute) and isinstance(f.value.value, ast.Name) and f.value.value.id == "constants":
+            return False        # dict.get on a constant table: an expression
         if f.attr in MUTATING_METHODS:
             raise Unsupported("mutating method .%s" % f.attr)
         return False
@@ -944,6 +955,87 @@ def loop_iteration(fn_node):
     return cond, it, effs, dict(state=state, carried=sorted(assigned), effects=[(n, m) for n, m, _ in rw.effects])
 
 
+def _is_self_call(node, names):
+    if isinstance(node, ast.Await):
+        node = node.value
+    return (isinstance(node, ast.Call) and isinstance(node.func, ast.Attribute) and isinstance(node.func.value, ast.Name) and node.func.value.id == "self"
+            and node.func.attr in names)
+
+
+class _EffRewrite(ast.NodeTransformer):
+    """replaces the k-th call `self.<effect>(...)` (in source order) by the parameter `eff<k>`; awaits erased, logging dropped"""
+
+    def __init__(self, names):
+        self.names = names
+        self.effects = []     # (param, method, [arg ASTs])
+
+    def visit_Await(self, node):
+        return self.visit(node.value)
+
+    def visit_Call(self, node):
+        self.generic_visit(node)
+        if _is_self_call(node, self.names):
+            name = "eff%d" % len(self.effects)
+            self.effects.append((name, node.func.attr, list(node.args)))
+            return ast.Name(id=name, ctx=ast.Load())
+        return node
+
+    def visit_Expr(self, node):
+        v = node.value.value if isinstance(node.value, ast.Await) else node.value
+        if isinstance(v, ast.Call) and isinstance(v.func, ast.Attribute) and isinstance(v.func.value, ast.Name) and v.func.value.id == "_LOGGER":
+            return ast.Pass()
+        self.generic_visit(node)
+        return node
+
+
+def _contains_name(node, name):
+    return any(isinstance(x, ast.Name) and x.id == name for x in ast.walk(node))
+
+
+def _cut_at(block, k, effects):
+    """the block up to the statement that USES eff<k>: that statement becomes `return ('request', method, args...)`; in an `if`, both branches are cut"""
+    target = "eff%d" % k
+    later = ["eff%d" % j for j in range(k + 1, len(effects))]
+    out = []
+    for st in block:
+        if isinstance(st, ast.If) and (_contains_name(ast.Module(body=st.body + st.orelse, type_ignores=[]), target) or any(_contains_name(st, l) for l in later)) \
+                and not _contains_name(st.test, target):
+            out.append(ast.If(test=st.test, body=_cut_at(st.body, k, effects) or [ast.Pass()], orelse=_cut_at(st.orelse, k, effects)))
+            continue
+        if _contains_name(st, target):
+            name, meth, args = effects[k]
+            out.append(ast.Return(value=ast.Tuple(elts=[ast.Constant(value="request"), ast.Constant(value=meth)] + args, ctx=ast.Load())))
+            return out
+        if any(_contains_name(st, l) for l in later):
+            out.append(ast.Global(names=["a later effect is requested first"]))
+            return out
+        out.append(st)
+    return out
+
+
+def effect_function(fn_node, effect_names, wrap_result=True):
+    """A method that performs effects through `self.<effect_names>(...)` as pure functions: `<fn>__fn(params, eff0, eff1, ...)` = the method with the effects'
+    RESULTS as parameters, and `<fn>__eff<k>_args(params, eff0..eff<k-1>)` = ('request', method, args...) of the k-th effect when the method gets that far
+    (otherwise whatever the method returns/raises before)."""
+    import copy as _copy
+    body = strip_docstring(list(_copy.deepcopy(fn_node.body)))
+    rw = _EffRewrite(effect_names)
+    new_body = [rw.visit(st) for st in body]
+    params = [a.arg for a in fn_node.args.args if a.arg != "self"]
+    uses_self = any(isinstance(x, ast.Name) and x.id == "self" for st in new_body for x in ast.walk(st))
+    if uses_self:
+        params = ["self"] + params
+    effs = [e[0] for e in rw.effects]
+
+    def mk(name, ps, b):
+        return ast.FunctionDef(name=name, args=ast.arguments(posonlyargs=[], args=[ast.arg(arg=p_) for p_ in ps], kwonlyargs=[], kw_defaults=[], defaults=[]), body=b, decorator_list=[])
+    main = mk(fn_node.name + "__fn", params + effs, new_body)
+    argfns = []
+    for k in range(len(rw.effects)):
+        argfns.append(mk("%s__eff%d_args" % (fn_node.name, k), params + effs[:k], _cut_at(_copy.deepcopy(new_body), k, rw.effects)))
+    return main, argfns, dict(effects=[(n, m) for n, m, _ in rw.effects], params=params)
+
+
 def build_units(repo):
     sys.path.insert(0, repo)
     import importlib
@@ -1007,11 +1099,22 @@ def build_units(repo):
         with open(os.path.join(repo, "adb_shell", fname)) as f:
             tree = ast.parse(f.read())
         u = Unit(consts)
+        u.external = {"unpack": "unpack", "checksum": "checksum"}      # module-level functions of adb_message.py, translated in its unit (same namespace)
         for mgr in ("_AdbIOManager", "_AdbIOManagerAsync"):
             mc = find_class(tree, mgr)
             if mc is None:
                 continue
             for m in methods_of(mc):
+                if m.name in ("_read_packet_from_device", "_send"):
+                    tag = "%s_%s" % (cls, m.name.strip("_"))
+                    try:
+                        main, argfns, info = effect_function(m, {"_read_bytes_from_device"} if m.name == "_read_packet_from_device" else {"_write_all"})
+                        for node, suffix in [(main, "fn")] + [(a, a.name.split("__")[-1]) for a in argfns]:
+                            u.add_function("", node, lean="%s_%s" % (tag, suffix), params=[a.arg for a in node.args.args])
+                    except Unsupported as exc:
+                        node = ast.FunctionDef(name=tag + "_fn", args=ast.arguments(posonlyargs=[], args=[], kwonlyargs=[], kw_defaults=[], defaults=[]),
+                                               body=[ast.Global(names=["not_extractable: %s" % str(exc)[:80].replace(" ", "_")])], decorator_list=[])
+                        u.add_function("", node, lean=tag + "_fn", params=[])
                 if m.name in ("_read_bytes_from_device", "_write_all"):
                     tag = "%s_%s" % (cls, m.name.strip("_"))
                     try:
@@ -1039,22 +1142,30 @@ def build_units(repo):
     return units
 
 
-def generate(repo=REPO):
+def generate(repo=REPO, skip=()):
     L = ["/- GENERATED by harness/pytrans.py from the current source of adb_shell (hidden_helpers.py, adb_message.py, adb_device*.py) -- do not edit. -/",
          "import AdbModel.Py", "namespace Adb.Src", "open Adb.Py", ""]
     status = {}
     consts_emitted = set()
+    pure_ok = set()
     for fname, u in build_units(repo):
         u.compute_purity()
+        u.external_pure = set(pure_ok)
+        if hasattr(u, "external"):
+            u.external = {k: v for k, v in u.external.items() if v in pure_ok}
         L.append("/-! ### %s -/" % fname)
         bodies = []
         for lean in call_order(u):
             f = u.fns[lean]
             try:
+                if lean in skip:
+                    raise Unsupported("the generated definition did not typecheck")
                 tr = FnTr(u, lean)
                 lines = tr.translate()
                 bodies.append("/-- `%s%s` (%s) -/\n%s\n" % ((f["cls"] + ".") if f["cls"] else "", f["name"], "returns (result, self')" if f["impure"] else "pure", "\n".join(lines)))
                 status[lean] = "ok"
+                if not f["impure"]:
+                    pure_ok.add(lean)
             except Unsupported as exc:
                 bodies.append("/-- `%s%s` is outside the translated subset: %s -/\ndef %s_UNTRANSLATABLE : String := %s\n" % (
                     (f["cls"] + ".") if f["cls"] else "", f["name"], str(exc).replace("-/", "- /"), lean, lean_str(str(exc))))
